@@ -3,6 +3,7 @@ package actionlint
 import (
 	"fmt"
 	"sort"
+	"strconv"
 	"strings"
 )
 
@@ -241,6 +242,21 @@ func (ty *ObjectType) Loose() {
 	ty.Mapped = AnyType{}
 }
 
+// quoteUnlessPlain quotes the property name unless it only consists of alphabets, digits, '_' and
+// '-'. Property names come from user inputs (matrix keys, step IDs, input names, ...) so they can
+// contain arbitrary characters such as spaces, ':' or line breaks.
+func quoteUnlessPlain(name string) string {
+	for _, r := range name {
+		if !('a' <= r && r <= 'z' || 'A' <= r && r <= 'Z' || '0' <= r && r <= '9' || r == '_' || r == '-') {
+			return strconv.Quote(name)
+		}
+	}
+	if name == "" {
+		return `""`
+	}
+	return name
+}
+
 func (ty *ObjectType) String() string {
 	if !ty.IsStrict() {
 		if ty.IsLoose() {
@@ -264,7 +280,7 @@ func (ty *ObjectType) String() string {
 		} else {
 			b.WriteString("; ")
 		}
-		b.WriteString(p)
+		b.WriteString(quoteUnlessPlain(p))
 		b.WriteString(": ")
 		b.WriteString(ty.Props[p].String())
 	}
